@@ -7,13 +7,13 @@ id="$1"; dir=/verif/seeded/$id; wt=/tmp/confirm-$id
 rm -rf $wt; git -C /repo worktree prune; git -C /repo worktree add -q --detach $wt HEAD || exit 3
 res="$dir/confirm.txt"; : > $res
 cd $wt
-feat="text,inline,unicode,bytes"
+feat="${FEAT:-text,inline,unicode,bytes}"; nd="${NODEFAULT:+--no-default-features}"   # FEAT=text NODEFAULT=1 for demos that need a reduced feature set
 mkdir -p tests; cp $dir/demo.rs tests/demo.rs
-if cargo test --offline --features $feat --test demo >/tmp/confirm-$id.log 2>&1; then echo "demo_without_patch=pass" >> $res; else echo "demo_without_patch=FAIL" >> $res; fi
+if cargo test --offline $nd --features $feat --test demo >/tmp/confirm-$id.log 2>&1; then echo "demo_without_patch=pass" >> $res; else echo "demo_without_patch=FAIL" >> $res; fi
 rm -rf tests/demo.rs
 if git apply $dir/patch.diff; then echo "applies=yes" >> $res; else echo "applies=NO" >> $res; fi
 if cargo test --workspace --no-fail-fast --offline >/tmp/confirm-$id.log 2>&1; then echo "suite_with_patch=pass ($(grep -c '\.\.\. ok' /tmp/confirm-$id.log) ok)" >> $res; else echo "suite_with_patch=FAIL" >> $res; fi
 cp $dir/demo.rs tests/demo.rs
-if cargo test --offline --features $feat --test demo >/tmp/confirm-$id.log 2>&1; then echo "demo_with_patch=PASS(unexpected)" >> $res; else echo "demo_with_patch=fail (as required): $(grep -E 'test result|panicked' /tmp/confirm-$id.log | head -2 | tr '\n' ' ' | cut -c1-300)" >> $res; fi
+if cargo test --offline $nd --features $feat --test demo >/tmp/confirm-$id.log 2>&1; then echo "demo_with_patch=PASS(unexpected)" >> $res; else echo "demo_with_patch=fail (as required): $(grep -E 'test result|panicked' /tmp/confirm-$id.log | head -2 | tr '\n' ' ' | cut -c1-300)" >> $res; fi
 cd /; git -C /repo worktree remove --force $wt; rm -f /tmp/confirm-$id.log
 echo "$id: $(tr '\n' ';' < $res | cut -c1-400)"
